@@ -552,10 +552,7 @@ def get_cfg(case, section, key, default=None):
 
 
 def file_name(r, role, fmt=None):
-    # (a Simulation with a computed misfit cannot be stored as json at all,
-    #  neither through the CLI nor through the API: not a C18 matter)
-    fmt = fmt or gen.choice(r, ['h5', 'npz', 'json'] if role not in (
-        'save', 'load', 'cache') else ['h5', 'npz'])
+    fmt = fmt or gen.choice(r, ['h5', 'npz', 'json'])
     base = {'survey': ['mysurvey', 'data_A', 's1'],
             'model': ['mymodel', 'resistivity', 'm1'],
             'output': ['result', 'out_1', 'emg3d-res'],
@@ -1419,9 +1416,7 @@ def run_sequence(rec, seed, k, i, cls='sequence'):
         how = gen.choice(r, ['load', 'cache', 'cfg_load', 'cfg_cache'])
         if lmj:
             f2 = gen.choice(r, ['misfit', 'gradient'])
-        json_ok = f1 == 'forward' and (f2 == 'forward' or 'load' in how)
-        simname = file_name(r, 'save', fmt=gen.choice(
-            r, ['h5', 'npz', 'json'] if json_ok else ['h5', 'npz']))
+        simname = file_name(r, 'save')
         if r.random() < 0.5:
             c1['tv']['save'] = simname
         else:
